@@ -40,6 +40,9 @@ def msdiff(exp, got):
 
 
 class C09(Oracle):
+    # reach probes that must not be stuck at zero (else the workload is not reaching what
+    # the design says it reaches): the check then exits 2
+    required_probes = {"quick": ['refusal_duplicate-identifier', 'refusal_nested-bundles', 'refusal_no-identifier', 'update_merged_same_named_bundle', 'update_appended_bundle', 'flattened_with_bundles'], "thorough": ['refusal_duplicate-identifier', 'refusal_nested-bundles', 'refusal_no-identifier', 'update_merged_same_named_bundle', 'update_appended_bundle', 'flattened_with_bundles']}
     prop = "C09"
 
     def swarm(self, rng):
